@@ -401,7 +401,9 @@ class DocstringParser(AbstractDocstringParser):
                 griffe_node = griffe_node.functions[part]
             elif part in griffe_node.attributes:
                 griffe_node = griffe_node.attributes[part]
-            elif part == "__init__" and griffe_node.is_class:
+            elif griffe_node.is_class:
+                # A member the docstring library does not list (a missing constructor, a method that consists of
+                # overloads only) has no docstring
                 return None
             else:  # pragma: no cover
                 raise ValueError(
